@@ -56,6 +56,9 @@ static void* parsec_base_future_get(parsec_base_future_t* future)
             parsec_atomic_rmb();
             return future->tracked_data;
         }
+#if defined(ICLDISCO_PARSEC_VERIF)
+        PARSEC_VERIF_SPIN() (void)0;
+#endif
     }
     return NULL;
 }
